@@ -7,8 +7,8 @@ Definitions for the parse → print → parse fixpoint (C01) on the third statem
                   parser builds when it reads the printed statement back);
 * `Stmt.fixKind`  decidable: the statement kinds for which the fixpoint is proved here by direct
                   evaluation of the parser on the printed tokens (`Lemmas/TclFixTx.lean`,
-                  `Lemmas/TclFixMisc.lean`): every kind without an expression operand and without the RAW
-                  strings of `SET NAMES`; statements of the first two fragments go through
+                  `Lemmas/TclFixMisc.lean`): every kind without an expression operand (`SET NAMES` included: its
+                  charset / collation come back as one word or one string token with the same text); statements of the first two fragments go through
                   `Ddl.stmt_reparse_sub`.
 -/
 namespace SqlVerif.Tcl
@@ -56,7 +56,7 @@ def plainW (name : String) : Tok := .word (str name) none none
 
 def collateNorm (co : List Tok) : List Tok :=
   match co.getLast? with
-  | some t => [kwT "COLLATE", (rawPiece true t).tok]
+  | some t => [kwT "COLLATE", (namesPartPiece true t).tok]
   | none => []
 
 def Stmt.norm : Stmt → Stmt
@@ -73,7 +73,7 @@ def Stmt.norm : Stmt → Stmt
   | .setTimeZone _ md _ _ e =>
     .setTimeZone (kwT "SET") (if isLocal md then [kwT "LOCAL"] else []) [] (.timeZone [kwT "TIME", kwT "ZONE"]) e.norm
   | .setNamesDefault _ _ _ _ _ => .setNamesDefault (kwT "SET") [] [] [plainW "NAMES"] (kwT "DEFAULT")
-  | .setNames _ _ _ _ cs co => .setNames (kwT "SET") [] [] [plainW "NAMES"] (rawPiece true cs).tok (collateNorm co)
+  | .setNames _ _ _ _ cs co => .setNames (kwT "SET") [] [] [plainW "NAMES"] (namesPartPiece true cs).tok (collateNorm co)
   | .setTx _ _ _ _ session ms =>
     if session then
       .setTx (kwT "SET") [kwT "SESSION"] [] [plainW "CHARACTERISTICS", kwT "AS", kwT "TRANSACTION"] true (sepNorm TMode.norm ms)
@@ -90,7 +90,6 @@ def Stmt.norm : Stmt → Stmt
 def Stmt.fixKind : Stmt → Bool
   | .setVar _ _ _ _ _ _ _ _ => false
   | .setTimeZone _ _ _ _ _ => false
-  | .setNames _ _ _ _ _ _ => false
   | .assert _ _ _ _ => false
   | .ddl _ => false
   | _ => true
